@@ -68,7 +68,54 @@ func c02LineTokens(cs *Case) []string {
 	return t
 }
 
+// c02Streams: non-interference on the real stream code.  A three-line input whose first line holds the secret, for
+// every content of the alphabet plus contents that are hostile to anything that frames lines or tracks strings by
+// hand (ending in a backslash, unbalanced quotes / brackets, an escaped line break, a line-sized text): the output of the
+// WHOLE stream must be the same bytes whatever the secret is.
+func c02Streams(c *Ctx) {
+	if c.Shard != 0 {
+		return
+	}
+	tw := twinAlphabet()
+	follow1, follow2 := tw[6].Text, tw[0].Text // a find line and a getMore line of the twin alphabet
+	mk := func(s string) string {
+		return LO("t", LO("$date", LS("2024-05-01T10:00:00.123+00:00")), "s", LS("I"), "c", LS("COMMAND"), "id", LN("1"), "ctx", LS("c"), "msg", LS("Slow query"),
+			"attr", LO("ns", LS("d.c"), "command", LO("find", LS("c"), "filter", LO("p", LS(s), "q", LO("$in", LA(LS(s), LS("second "+s)))), "$db", LS("d")))).JSON()
+	}
+	hostile := []string{"ends with a backslash \\", "\\", "two at the end \\\\", "quote at the end \"", "\\\"", "open { [ \" brackets", "} ] closes", "line\nbreak", "cr\r\nlf", "tab\t", "{\"c\":\"COMMAND\"}", "\u2028 \u2029 \u0085", strings.Repeat("x", 5000) + "\\"}
+	contents := append(append([]string{}, c02Alphabet[ClsStr]...), hostile...)
+	for _, fl := range []Flags{{}, {N: true, B: true, I: true}} {
+		fl.Apply()
+		for _, ch := range []string{"reader", "gzfile"} {
+			var base string
+			for i, s := range contents {
+				if strings.HasPrefix(s, "$") {
+					continue
+				}
+				text := mk(s) + "\n" + follow1 + "\n" + follow2 + "\n"
+				out, err, pv := c06RunInproc(text, 3, ch, "nobar")
+				c.Eval(1)
+				c.Distinct(fmt.Sprintf("c02stream|%s|%s|%d", fl, ch, i))
+				if pv != nil || err != nil {
+					c.Violate("stream-dependence:abort", fmt.Sprintf("a three-line stream whose first line holds the literal %q, flags [%s], %s: the run aborts (%v %v)", trunc(s, 40), fl, ch, err, pv), int64(i), map[string]any{"kind": "c02-stream", "secret": s, "flags": fl.String()}, nil)
+					continue
+				}
+				if i == 0 {
+					base = out
+					continue
+				}
+				if out != base {
+					c.Violate("stream-dependence:output-differs", fmt.Sprintf("two three-line streams that differ only in a redacted literal of the first line (%q vs %q), flags [%s], %s: the outputs differ (%d vs %d lines)", trunc(contents[0], 40), trunc(s, 40), fl, ch, strings.Count(base, "\n"), strings.Count(out, "\n")), int64(i),
+						map[string]any{"kind": "c02-stream", "secret": s, "flags": fl.String(), "out_a": base, "out_b": out}, nil)
+				}
+			}
+		}
+	}
+	Flags{}.Apply()
+}
+
 func c02Run(c *Ctx) {
+	c02Streams(c)
 	ns := "dbZq1.coQx7"
 	flagsQ := []Flags{{N: true, B: true}, {I: true, W: true, R: customReplacement, F: []string{ns}}}
 	flagsT := []Flags{{}, {N: true, B: true}, {I: true, W: true, R: customReplacement, F: []string{ns}}, {N: true, B: true, F: []string{ns}, REmpty: true}, {N: true}, {B: true}, {R: "x@y.zz"}, {W: true, F: []string{ns}}}
@@ -259,7 +306,7 @@ func c02Run(c *Ctx) {
 func init() {
 	register(&PropDef{
 		ID: "C02", Level: "exploration",
-		Rule:        "every line skeleton of G at <=1 non-default production (thorough <=2) x placeholder-mode flag sets; for each skeleton the explorer enumerates the re-assignments of its SECRET leaves within their class: fillers jointly re-assigned or not x each focused literal taking every alternative of its class alphabet (21 ordinary strings incl. empty, 1.3 KB, JSON metacharacters, '@' without e-mail shape, output-shaped texts, plus up to 8 texts taken from the line itself - its user field names, a dotted path of them, collection, database, namespace, an operator, the verb; 4 e-mails; 4 $date / $oid / base64 contents; 6 numbers under N; both booleans under B), up to 2 leaves deviating; oracle = byte-identical output. distinct = skeleton lines with at least one SECRET leaf" + scaleRule + streamLenRule + rootedRule,
+		Rule:        "three-line streams on the real stream code whose first line holds every content of the string alphabet and 13 contents hostile to line framing (ending in a backslash, unbalanced quotes / brackets, escaped line breaks): identical output bytes; every line skeleton of G at <=1 non-default production (thorough <=2) x placeholder-mode flag sets; for each skeleton the explorer enumerates the re-assignments of its SECRET leaves within their class: fillers jointly re-assigned or not x each focused literal taking every alternative of its class alphabet (21 ordinary strings incl. empty, 1.3 KB, JSON metacharacters, '@' without e-mail shape, output-shaped texts, plus up to 8 texts taken from the line itself - its user field names, a dotted path of them, collection, database, namespace, an operator, the verb; 4 e-mails; 4 $date / $oid / base64 contents; 6 numbers under N; both booleans under B), up to 2 leaves deviating; oracle = byte-identical output. distinct = skeleton lines with at least one SECRET leaf" + scaleRule + streamLenRule + rootedRule,
 		Assumptions: []string{"class membership follows DESIGN.md 3.0: borderline e-mail shapes are never used as members of a class", "encrypt and selective modes are outside the property"},
 		Run:         c02Run,
 	})
